@@ -109,13 +109,15 @@ def decodeMySqlSslRequest (b : Bytes) : Option (MySqlSslRequest × Nat) := do
     let (mx, _) ← rdLE 3 r
     pure (⟨lo, mx, none⟩, 5)
 
-/-- `Protocol::HandshakeV10` for a server that sets `CLIENT_PLUGIN_AUTH` (every server since 5.5.7):
+/-- `Protocol::HandshakeV10`:
 `int<1> 10`, `string<NUL> server version`, `int<4> thread id`, `string[8] auth-plugin-data-part-1`,
 `int<1> filler`, `int<2> capability_flags_1` (lower 16 bits), `int<1> character_set`,
-`int<2> status_flags`, `int<2> capability_flags_2` (upper 16 bits), `int<1> auth_plugin_data_len`,
-`string[10] reserved`, `string[$len] auth-plugin-data-part-2` with `$len = MAX(13, auth_plugin_data_len - 8)`,
-`string<NUL> auth_plugin_name`.  Without `CLIENT_PLUGIN_AUTH` the length octet is `00` and no plugin
-name follows (and, for this specification, no second part: `CLIENT_SECURE_CONNECTION` clear). -/
+`int<2> status_flags`, `int<2> capability_flags_2` (upper 16 bits),
+`int<1> auth_plugin_data_len` if `CLIENT_PLUGIN_AUTH` else `int<1> 00`, `string[10] reserved`,
+`string[$len] auth-plugin-data-part-2` with `$len = MAX(13, auth_plugin_data_len - 8)` — present
+when `CLIENT_SECURE_CONNECTION` is set (every server since 4.1; servers before 5.5.7 set it without
+`CLIENT_PLUGIN_AUTH`, the length octet is then `00` and the part has its 13 octets) or
+`CLIENT_PLUGIN_AUTH` is —, and `string<NUL> auth_plugin_name` if `CLIENT_PLUGIN_AUTH`. -/
 structure MySqlHandshakeV10 where
   protocolVersion : Nat
   serverVersion : Bytes
@@ -129,6 +131,7 @@ structure MySqlHandshakeV10 where
 deriving DecidableEq, Repr
 
 def MySqlHandshakeV10.plugin (h : MySqlHandshakeV10) : Bool := h.capabilityFlags.testBit 19
+def MySqlHandshakeV10.secure (h : MySqlHandshakeV10) : Bool := h.capabilityFlags.testBit 15
 
 def noNul (b : Bytes) : Prop := (0 : UInt8) ∉ b
 
@@ -136,7 +139,8 @@ def MySqlHandshakeV10.wf (h : MySqlHandshakeV10) : Prop :=
   h.protocolVersion < 256 ∧ noNul h.serverVersion ∧ h.threadId < 2 ^ 32 ∧ h.authPluginDataPart1.length = 8 ∧
   h.capabilityFlags < 2 ^ 32 ∧ h.characterSet < 256 ∧ h.statusFlags < 2 ^ 16 ∧
   (if h.plugin then 13 ≤ h.authPluginDataPart2.length ∧ h.authPluginDataPart2.length ≤ 247 ∧ noNul h.authPluginName
-   else h.authPluginDataPart2 = [] ∧ h.authPluginName = [] ∧ h.capabilityFlags.testBit 15 = false)
+   else h.authPluginName = [] ∧
+    (if h.secure then h.authPluginDataPart2.length = 13 else h.authPluginDataPart2 = []))
 
 def encodeMySqlHandshakeV10 (h : MySqlHandshakeV10) : Bytes :=
   toBytesLE 1 h.protocolVersion ++ h.serverVersion ++ [0] ++ toBytesLE 4 h.threadId ++ h.authPluginDataPart1 ++ [0]
@@ -163,6 +167,10 @@ def decodeMySqlHandshakeV10 (b : Bytes) : Option (MySqlHandshakeV10 × Nat) := d
     let (p2, r) ← rdN (max 13 (adl - 8)) r
     let (nm, _) ← rdNul r
     pure (⟨pv, sv, tid, p1, caps, cs, st, p2, nm⟩, 33 + sv.length + p2.length + nm.length + 1)
+  else if caps.testBit 15 then
+    -- the length octet is the constant `00` here: MAX(13, 0 - 8) = 13
+    let (p2, _) ← rdN 13 r
+    pure (⟨pv, sv, tid, p1, caps, cs, st, p2, []⟩, 33 + sv.length + p2.length)
   else
     pure (⟨pv, sv, tid, p1, caps, cs, st, [], []⟩, 33 + sv.length)
 
